@@ -169,7 +169,8 @@ RULES = {
            "frames, decodable RPCs with hostile field values, honest RPCs - each optionally followed by close / reset / reopen; then the "
            "honest peer's message must reach the node's subscription, the node's must reach the honest peer, ListPeers / GetTopics must "
            "answer. Non-trivial: the input decodes and reaches a handler (Hostile, Fuzz); two or more frames (Wire). Distinct = case JSON "
-           "/ corpus entry.",
+           "/ corpus entry."
+           " Peer-exchange records include correctly signed envelopes: a valid peer record, one whose signature does not verify, and one in the peer-record domain whose payload is another registered record type (a relay reservation voucher).",
     "C13": "direct-driven gossipsub node with scoring, gater, test and partial-message extensions, peer exchange, tag tracer, automatic "
            "heartbeats and a slow / rejecting validator; one or two remote peers of every protocol version (one optionally a configured "
            "direct peer) plus a bystander; histories (<= 40 ops) of outbound open / close / reset-with-connection-kept / repeated "
@@ -183,7 +184,8 @@ RULES = {
            "order, refuses the node's respawned streams, sends subscriptions / GRAFT / PRUNE / IHAVE / IDONTWANT / messages incl. slow "
            "validation on a stream that outlives the other direction) or a real node (subscribe, publish, stream resets, disconnect); "
            "3 or 12 virtual minutes of retention. Non-trivial: an RPC after the outbound close, streams closed in another order than "
-           "opened, the dead-peer back-off used, or a validation that may outlive the connection. Distinct = case JSON.",
+           "opened, the dead-peer back-off used, or a validation that may outlive the connection. Distinct = case JSON."
+           " Peers may come back from another address; two peers can share an address.",
     "C01": "(NET) 2-10 real nodes on full libp2p hosts over simnet with generated per-link latencies (1-50 ms); routers all-gossipsub, "
            "all-floodsub, all-randomsub or mixed; gossipsub parameters: defaults, (D 2, Dlo 1, Dhi 2) or (D 4, Dlo 2, Dhi 5), flood "
            "publishing on or off; roles per node: 1 or 2 subscriptions, relay only, relay + subscription, none (outside publisher); "
@@ -194,7 +196,7 @@ RULES = {
            "as scripted, ListPeers = interested neighbours, else inconclusive), 1-3 publishers with bursts of 1-2 messages (small, or "
            "1.5 KB to engage IDONTWANT), N+4 virtual seconds, then every subscription of every node is drained: each message of the "
            "round exactly once, nothing else. Non-trivial: a subscriber two or more hops from a publisher, or a churn round. "
-           "Distinct = case JSON.",
+           "Distinct = case JSON. Churn also flaps an existing link 1-7 times in a row.",
     "C05": "(NET) 2-4 real nodes (gossipsub / floodsub / randomsub mixes, outbound queue size 1, 2 or 32) plus a skeleton observer on "
            "full libp2p hosts over simnet with generated link latencies; histories of up to 24 operations - Subscribe, "
            "Subscription.Cancel, Relay, relay-cancel (also twice), Topic.Close, fanout-only joins, connect, whole-peer disconnect, reset "
@@ -208,7 +210,8 @@ RULES = {
            "fold equals the node's interest at quiet points; every subscription holds exactly the messages published while it was "
            "live (up to its buffer of 1, 2, 4 or 32), then ErrSubscriptionCancelled if cancelled, then blocks if live. Non-trivial: "
            "interest returns to zero and rises again or a stream was reset (NET); an announcement hit a full queue or a subscription "
-           "was cancelled with buffered messages (DD). Distinct = case JSON.",
+           "was cancelled with buffered messages (DD). Distinct = case JSON."
+           " (NET) links between real nodes also flap 1-7 times in a row.",
     "C16": "(NET) node N of each router on a full libp2p host (NewStream optionally taking 20-400 virtual ms) with three skeleton peers "
            "over simnet (latencies 1-50 ms): the target X (floodsub / gossipsub v1.1 / v1.2), an honest forwarder Y and a leaf Z; "
            "blacklist implementation map or time-cached, route BlacklistPeer or Add inside the event loop; position of the moment: "
@@ -221,7 +224,8 @@ RULES = {
            "stream it accepted later than one latency after the moment; after BlacklistPeer (first or repeated): no outbound queue, "
            "the old queue closed, X in no mesh / fanout / ListPeers, and no RPC reaches X later than one latency after it; at the end "
            "no outbound queue for X. Y's own messages must still arrive (control). Non-trivial: position other than settled and "
-           "control messages delivered. Distinct = case JSON.",
+           "control messages delivered. Distinct = case JSON."
+           " X subscribes to two more topics the node has not joined (fanout membership through 'nfan' publishes), bursts of eight 30 KB publishes leave a backlog in X's queue at the moment; after BlacklistPeer the old queue must answer a Pop with ErrQueueClosed even though RPCs are still queued; timing rules carry a 300 ms backlog allowance after a burst.",
     "C14": "direct-driven node of each router (gossipsub with scoring and gater; with or without a discovery service; 2 real connector "
            "goroutines, automatic heartbeats, a slow validator with 0-4 remote messages in validation) under 1-4 concurrent caller "
            "goroutines issuing 1-10 calls each of 23 APIs (join, subscribe, Next, cancel, publish, publish-with-readiness, batch, relay, "
@@ -235,7 +239,8 @@ RULES = {
            "node 0 around the cancellation, connect / disconnect / stream-reset churn; node 0's context is cancelled at a generated "
            "virtual instant; its API is called again; the hosts are closed: same oracle, and a goroutine left in library code (comm.go's "
            "stream readers and writers included) is a violation. Non-trivial: at least one call was in progress at the instant of "
-           "cancellation (DD); cancelled under traffic (NET). Distinct = case JSON.",
+           "cancellation (DD); cancelled under traffic (NET). Distinct = case JSON."
+           " Two asynchronous, context-honouring default validators apply to every message (both report at once on shutdown).",
     "C03": "direct-driven floodsub node under each signature policy (StrictSign, StrictNoSign, LaxSign, LaxNoSign) x author mode (default, "
            "custom author with key in the peerstore, anonymous); 1-12 messages per case: honestly signed messages of three remote authors "
            "(two ed25519 with extractable key, one ECDSA with attached key) forwarded by the author or another peer and hit by 0-3 of 20 "
@@ -245,7 +250,8 @@ RULES = {
            "implementation of the signature rule + the policy's presence rules + self-origin rule + seen IDs; accept => delivered once and "
            "forwarded byte-identical, reject => never delivered or queued; verifyMessageSignature is also compared differentially with the "
            "independent verifier; own messages must be acceptable to a correct receiver. Non-trivial: tampering changed the verdict, or an "
-           "accept under a lax policy. Distinct = case JSON.",
+           "accept under a lax policy. Distinct = case JSON."
+           " One case in five runs in an overload configuration (validation queue of one, one worker, an inline validator the harness can hold): generated messages then arrive while the pipeline is full; such a message may be dropped but is never let through unverified.",
     "C04": "direct-driven gossipsub node with scoring (invalid-delivery counters observable), 1-5 scripted validators (default / topic A / "
            "topic B, inline / asynchronous, optional timeout), 1-3 validation workers, optional tiny throttles (global, per validator, "
            "queue); 1-4 messages per case, local or remote, on topic A or B, with a per-validator verdict in {Accept, Reject, Ignore, 7, "
@@ -263,7 +269,8 @@ RULES = {
            "message and exactly one for each message a subscription received, one PUBLISH per local attempt); at the end the RPCs each "
            "outbound queue accepted are compared as multisets of independently rendered metadata with the SEND_RPC events, and the JSON "
            "and protobuf files are parsed back and compared event by event with the in-memory sequence. Non-trivial: the trace holds a "
-           "LEAVE or closed stream and a DROP_RPC or rejected message. Distinct = case JSON.",
+           "LEAVE or closed stream and a DROP_RPC or rejected message. Distinct = case JSON."
+           " Local-only publications and a second Cancel of an already cancelled subscription are part of the histories.",
     "C18": "(Seq) every enabled sequence up to the length bound over {join / leave of two peers, pull on handler A, create handler B, pull on "
            "handler B} on the handler's event log, exhaustively; (Node) rapid histories (up to 200 ops) on a direct-driven node under all "
            "three routers: remote subscribe / unsubscribe / disconnect / inbound-stream close on 2-5 peers interleaved with handler "
@@ -280,7 +287,8 @@ RULES = {
            "statement's rules; observed recipients must lie between them (exact size where the rule fixes it), every copy must equal the "
            "accepted message byte for byte and verify under an independent implementation of the signature rule; fan-out sets are "
            "checked across heartbeats (<= D, eligible members kept, topped up, expiry after FanoutTTL). Non-trivial: a publish with >= 3 "
-           "topic peers of >= 2 recipient classes. Distinct = case JSON.",
+           "topic peers of >= 2 recipient classes. Distinct = case JSON."
+           " Local publishes also go through AddToBatch + PublishBatch (also local-only); the time of the last fanout publication is the harness's own record, not the router's.",
     "C09": "direct-driven gossipsub node with peer scoring through the application score, peer exchange on, optional gater, flood publish "
            "on/off, joined or fan-out only, small or large mesh; thresholds accepted by validation; 2-8 peers (all protocol versions, "
            "direct or not, inbound/outbound) whose scores are drawn from {each threshold, its two float neighbours, 0, +-0.5, +-1, "
@@ -288,7 +296,8 @@ RULES = {
            "flood / fan-out), PRUNE with peer-exchange records (valid, other signer, garbage, absent, already connected), score change, "
            "gater throttling driven through its tracer interface. Each probe's observable effect is compared with the statement's table "
            "in both directions (what must not happen below a threshold, what must happen at or above it). Non-trivial: a probed peer's "
-           "score is exactly on or adjacent to a threshold. Distinct = case JSON.",
+           "score is exactly on or adjacent to a threshold. Distinct = case JSON."
+           " Topic 1 can be joined once (promotion of fanout members); messages of direct peers must be delivered also while the gater throttles.",
     "C07": "direct-driven gossipsub node with manual heartbeats; rapid draws a parameter set accepted by validate() (D<=8, incl. the all-zero "
            "bootstrapper set), optional scoring through the application score, direct peers, and a history (<= ~50 ops, <= 36 peers) of "
            "arrivals/departures with direction and protocol version, remote subscribe/unsubscribe/GRAFT/PRUNE (also in bulk), joins "
@@ -297,7 +306,8 @@ RULES = {
            "cut to exactly D keeping the Dscore best and Dout outbound, additions only from eligible peers and beyond Dlo only through the "
            "outbound quota / opportunistic rule, GRAFT/PRUNE queued for every own-initiative change) plus invariants after every step "
            "(mesh members are connected peers, mesh exists iff joined, fan-out only for unjoined topics) and admission rules for remote "
-           "GRAFTs. Non-trivial: a heartbeat changed a mesh that had >= Dlo-1 members, or an admission was refused. Distinct = case JSON.",
+           "GRAFTs. Non-trivial: a heartbeat changed a mesh that had >= Dlo-1 members, or an admission was refused. Distinct = case JSON."
+           " Half of the structured two-topic histories populate both topics with the same peers and over-fill one of them, so that one heartbeat grafts a peer on one topic and prunes it on the other.",
     "C08": "direct-driven gossipsub node, manual heartbeats, generated prune/unsubscribe back-offs, flood threshold, queue sizes 1-3 left "
            "undrained (dropped + retried control) or drained; histories (<= ~60 ops) of joins, leaves, heartbeats (also 14-16 in a row "
            "to meet the back-off sweep), received GRAFT/PRUNE (back-off absent, 0..300 s), departures and returns, time advances to the "
@@ -305,7 +315,8 @@ RULES = {
            "the router's table); every GRAFT is judged at the instant it is handed to the outbound queue; a GRAFT received before the "
            "deadline must be refused with PRUNE, penalised (1, or 2 inside the flood threshold of the last PRUNE) and extend the "
            "back-off; every PRUNE to a v1.1+ peer states the prune / unsubscribe back-off. Non-trivial: a graft opportunity or GRAFT "
-           "receipt within a few seconds of a deadline, or a control message was dropped and retried. Distinct = case JSON.",
+           "receipt within a few seconds of a deadline, or a control message was dropped and retried. Distinct = case JSON."
+           " Publishing while not subscribed (fanout) is part of the histories, so a re-join inside the back-off meets a fanout set.",
     "C17": "(b) direct-driven gossipsub node with small limits (MaxIHaveLength 2-5, MaxIHaveMessages 1-3, MaxIDontWant* 1-3, retransmission "
            "1-3, IDONTWANT TTL 1-3, history 1-5 / gossip <= history, follow-up 0.5-3 s, size threshold 64 B): histories (<= ~50 ops) of "
            "local and remote publishes (sizes below / exactly on / above the threshold), manual heartbeats, IHAVE / IWANT / IDONTWANT "
@@ -327,7 +338,8 @@ RULES = {
            "(a) seen cache alone, both strategies, public timecache API under the virtual clock: sequences of Add/Has/advance over 4 ids "
            "with TTLs 1s..10min against the statement's two-sided bound (must be present before expiry, must be absent after expiry + "
            "one sweep interval, either answer in between with the model following the implementation); non-trivial = an operation "
-           "falls after an expiry or between TTL and sweep. (b) see part list. Distinct = distinct case JSON.",
+           "falls after an expiry or between TTL and sweep. (b) see part list. Distinct = distinct case JSON."
+           " (Batch) direct-driven gossipsub node; histories of AddToBatch / PublishBatch on two reused MessageBatch objects while the event loop is held up for generated stretches, so that an addition races a taken batch still waiting in the hand-off channel; every added message is delivered exactly once.",
     "C20": "(b) direct-driven gossipsub node with the validator as default validator (inline or asynchronous, optionally next to an accepting "
            "asynchronous topic validator) on the instrumented store, StrictSign, 1-8 workers, seen TTL 2 s, scoring on; 1-8 bursts of 1-8 "
            "signed messages (2 authors, sequence numbers 0-12 with repeats and decreasing runs, 0-12 byte encodings) arriving in one instant "
@@ -359,7 +371,8 @@ RULES = {
     "C11": "rapid-generated RPCs (0-12 messages, subscriptions, all six control kinds, extension / partial / "
            "test-extension fields, element sizes from 0 to 1.5x the limit) and limits 8..4096; oracle = round trip "
            "by canonical content over the fragments of RPC.split + size rule + no empty fragment + input not mutated. "
-           "Non-trivial: the RPC is larger than the limit and holds >= 2 field kinds; distinct = distinct case JSON.",
+           "Non-trivial: the RPC is larger than the limit and holds >= 2 field kinds; distinct = distinct case JSON."
+           " One case in eight packs messages whose encoded size sits exactly at a varint length boundary (126-129, 16383-16385, 16511-16512 bytes) under a limit that is a multiple of the per-message cost plus a small remainder; a fragment that carries no element although the RPC has elements counts as an empty RPC.",
 }
 
 ASSUMPTIONS = {
